@@ -107,6 +107,8 @@ FEATURES = [
     ('/r/w/base/sub/deep.tex', F), ('/r/w/base/sub.tex', F),
     ('/r/w/base-evil/x.tex', F), ('/r/w/base-evil/in.tex', F), ('/r/w/base.tex', F), ('/r/w/base.latex', F),
     ('/r/w/basement/x.tex', F), ('/r/w/bas/x.tex', F), ('/r/w/bas.tex', F),
+    # siblings that differ from the base directory by letter case only (the file system is case-sensitive)
+    ('/r/w/Base/x.tex', F), ('/r/w/BASE/in.tex', F), ('/r/w/base/lcase.tex', lambda: L('../Base/x.tex')),
     # a sibling whose name is the base name followed by a character that is a separator elsewhere (not on POSIX)
     ('/r/w/base\\old/x.tex', F), ('/r/w/base/lbs.tex', lambda: L('../base\\old/x.tex')), ('/r/w/base:x/y.tex', F),
     ('/r/w/secret.tex', F), ('/r/w/out/o.tex', F), ('/r/w/out/in.tex', F), ('/r/other/z.tex', F), ('/top.tex', F),
@@ -165,6 +167,9 @@ MINIMAL = [
     # the same with a backslash / colon as the extending character
     ({'w': {'base': {'in.tex': F(), 'lb.tex': L('../base\\x/s.tex')}, 'base\\x': {'s.tex': F()}, 'base:y': {'t.tex': F()}}}, '/w/base',
      ['../base\\x/s.tex', '../base\\x/s', 'lb', 'lb.tex', '/w/base\\x/s.tex', '../base:y/t', 'in']),
+    # letter case
+    ({'w': {'base': {'in.tex': F(), 'lc.tex': L('../Base/s.tex')}, 'Base': {'s.tex': F(), 'in.tex': F()}}}, '/w/base',
+     ['../Base/s.tex', '../Base/s', 'lc', '/w/Base/s.tex', '../Base/in', 'in']),
     # F7a': sibling FILE whose name extends the base name
     ({'w': {'base': {}, 'base.tex': F(), 'base-x': F()}}, '/w/base', ['../base.tex', '../base-x', '../base', '.']),
     # F7b: only the extended name exists and it is a link to an outside file
@@ -458,6 +463,7 @@ def impl(c):
         rd = lay.real(d['dir'])
         l2t = LatexNodes2Text()
         if rd is not None:
+            l2t.set_tex_input_directory('/', strict_input=not d['strict'])       # an earlier configuration of the same object
             l2t.set_tex_input_directory(rd, strict_input=d['strict'])
             dm = lay.model(os.path.realpath(rd))
             out = ['D=' + ('ESC' if dm is None else show_str(dm))]
@@ -573,6 +579,9 @@ def oracle(c):
         if dreal is None:                 # directory does not exist: nothing can be inside it
             dreal = os.path.realpath(rd)
         l2t = LatexNodes2Text()
+        # the same converter was first configured for ANOTHER directory without strict mode (history on one object):
+        # the second call, with the documented default strict_input=True, is what counts
+        l2t.set_tex_input_directory(os.path.dirname(rd.rstrip('/')) or '/', strict_input=False)
         l2t.set_tex_input_directory(rd, strict_input=True)
 
         def mp(p):
